@@ -257,11 +257,11 @@ def run(ctx: core.Ctx) -> int:
                msg="transform does not return the collected per-row, per-sensor values as an array")
     # ---- RECORDS (from the E2 event log of sensor_model)
     sc = scenarios.PyEKF(ctx, run=("sensor_model",))
-    ev = [e for e in sc.it.events if e["func"] == "ExtendedKalmanFilter.sensor_model"]
+    ev = scenarios.events_of(sc.it, "ExtendedKalmanFilter.sensor_model")
     first_ret = min((e["seq"] for e in ev if e["kind"] == "return"), default=None)
     for name in ("innovations", "sensor_prediction_uncertainty"):
         st = [e for e in ev if e["kind"] == "store" and f"self.{name}[" in e.get("target", "")]
-        ok = bool(st) and all(not e["path"] for e in st) and first_ret is not None and all(e["seq"] < first_ret for e in st)
+        ok = bool(st) and all(not e["rpath"] for e in st) and first_ret is not None and all(e["seq"] < first_ret for e in st)
         ctx.oblige("RECORDS", f"{F}:ExtendedKalmanFilter.sensor_model", f"self.{name}[key] stored unconditionally before the first return", ok, file=F,
                    func="ExtendedKalmanFilter.sensor_model", construct=f"record {name}",
                    msg=f"sensor_model does not refresh self.{name}[sensor_key] on every call (a rejected reading leaves a stale record, from which the adapter computes its NIS)")
